@@ -22,16 +22,22 @@ Measure(d) == CASE d = 1 -> RI(3) [] d = 2 -> RI(6) [] d = 3 -> RI(12)
 BeamArea == R(1, 8)
 BeamDirs == {"ur", "ul", "dl", "dr"}
 
+(* shape of the domain: the integer box, or a disk / cylinder whose boundary elements of degree >= 2 have CURVED edges, so that *)
+(* the Jacobian of the geometric map varies inside an element (simplices included).  None of the spectral attributes depends  *)
+(* on it; the measure of the round domain is the one of the mesh (C07 settles measures), not a rational of this module.       *)
+Shapes == {"box", "round"}
+
 Configs ==
-         {[phys |-> "elastic", dim |-> d, elem |-> e, rho |-> r, thick |-> t, dir |-> "ur"] : d \in {2, 3}, e \in Elems2D \cup Elems3D, r \in Rhos, t \in Thicks}
-    \cup {[phys |-> "thermal", dim |-> d, elem |-> e, rho |-> r, thick |-> t, dir |-> "ur"] : d \in {1, 2, 3}, e \in Elems1D \cup Elems2D \cup Elems3D, r \in Rhos, t \in Thicks}
+         {[phys |-> "elastic", dim |-> d, elem |-> e, rho |-> r, thick |-> t, dir |-> "ur", shape |-> sh] : d \in {2, 3}, e \in Elems2D \cup Elems3D, r \in Rhos, t \in Thicks, sh \in Shapes}
+    \cup {[phys |-> "thermal", dim |-> d, elem |-> e, rho |-> r, thick |-> t, dir |-> "ur", shape |-> sh] : d \in {1, 2, 3}, e \in Elems1D \cup Elems2D \cup Elems3D, r \in Rhos, t \in Thicks, sh \in Shapes}
     \* dir: the quadrant the member is drawn towards (up-right, up-left, down-left, down-right): the local frame of a member
     \* drawn towards -x is a reflection of the global one in 2-D, and none of the expected attributes depends on it
-    \cup {[phys |-> p, dim |-> d, elem |-> e, rho |-> r, thick |-> One, dir |-> q] : p \in {"beamEB", "beamTimo"}, d \in {1, 2, 3}, e \in Elems1D, r \in Rhos, q \in BeamDirs}
+    \cup {[phys |-> p, dim |-> d, elem |-> e, rho |-> r, thick |-> One, dir |-> q, shape |-> "box"] : p \in {"beamEB", "beamTimo"}, d \in {1, 2, 3}, e \in Elems1D, r \in Rhos, q \in BeamDirs}
 
 Valid(c) ==
     /\ c.phys \in {"elastic", "thermal"} => c.elem \in ElemsOf(c.dim)
     /\ (c.dim # 2 /\ c.phys \in {"elastic", "thermal"}) => c.thick = One      \* thickness only exists in 2D
+    /\ (c.shape = "round") => (c.dim \in {2, 3} /\ c.thick = One)
     /\ (c.dim = 1 /\ c.phys \in {"beamEB", "beamTimo"}) => c.dir \in {"ur", "ul"}       \* a 1-D member is drawn towards +x or -x
 
 RigidModes(d) == (d * (d + 1)) \div 2      \* translations + rotations
@@ -49,7 +55,7 @@ ExpMassSum(c) ==
     ELSE Mul3(c.rho, Measure(c.dim), c.thick)
 MassDefinite(c) == c.phys \in {"elastic", "thermal"}      \* beams: rotational inertia is neglected -> semi-definite
 
-Expect(c) == [cfg |-> c, kernel |-> ExpKernel(c), dofn |-> DofN(c), massSum |-> ExpMassSum(c), massDefinite |-> MassDefinite(c)]
+Expect(c) == [cfg |-> c, kernel |-> ExpKernel(c), dofn |-> DofN(c), massSum |-> ExpMassSum(c), massFrom |-> IF c.shape = "round" THEN "mesh" ELSE "domain", massDefinite |-> MassDefinite(c)]
 
 Init == cfg \in {c \in Configs : Valid(c)}
 Next == UNCHANGED cfg
